@@ -24,6 +24,11 @@ def gen_seasons(y0, y1):
         for k, name in enumerate(SEASONS):
             ev = {"k": "season", "y": y, "kq": k, "inr": inr}
             try:
+                if (y + k) % 3 == 0:
+                    # the caller owns what it was given: an earlier result for the same year and season is re-targeted
+                    # with set() before the instant is asked for again
+                    prev = Sun.get_equinox_solstice(y, name)
+                    prev.set(2451545.0)
                 e = Sun.get_equinox_solstice(y, name)
                 lon, lat, r = Sun.apparent_geocentric_position(Epoch(e.jde()))
                 ev["r"], ev["lon"], ev["oc"], ev["rf"] = fx(e.jde()), fx(float(lon)), "ok", e.jde()
@@ -111,7 +116,7 @@ def gen_rts(seed, shard, n):
         ra_rate = rng.uniform(-1.5, 1.5)
         dec_rate = rng.uniform(-0.5, 0.5)
         h0 = rng.choice([-0.5667, -0.8333, 0.125])
-        dt = rng.choice([56.0, 69.0, 0.0])
+        dt = rng.choice([56.0, 69.0, 0.0, 1570.0, 10580.0, 17190.0, rng.uniform(0.0, 17190.0)])        # present-day and historical Delta-T (year -500: 17190 s)
         th0 = rng.uniform(0, 360)
         A = [Angle(a2 + ra_rate * k) for k in (-1, 0, 1)]
         D = [Angle(max(-89.9, min(89.9, d2 + dec_rate * k))) for k in (-1, 0, 1)]
